@@ -7,7 +7,10 @@
 (* transactions the store rejects, the final committed state.  The harness *)
 (* replays the schedule on the real code with gates at the store's Begin   *)
 (* and Commit / Rollback calls; TraceLin decides the property on what the  *)
-(* code did, the prediction is compared as advisory drift.                 *)
+(* code did, the prediction is compared as advisory drift.  The `risky`    *)
+(* configurations run the model with the pre-repair write sets: the        *)
+(* behaviours it marks lin = FALSE are the schedules on which the          *)
+(* correctness of the real code hinges (they are all replayed).            *)
 (***************************************************************************)
 EXTENDS CloverConc, Json
 
@@ -22,5 +25,7 @@ EmitDone ==
            t1    |-> [g \in Gs |-> tx[g].t1],
            res   |-> [g \in Gs |-> tx[g].res],
            ab    |-> [g \in Gs |-> tx[g].aborted],
-           fin   |-> [idx |-> db.idx, size |-> db.size, docs |-> db.docs, ents |-> db.ents]]))
+           fin   |-> [idx |-> db.idx, size |-> db.size, docs |-> db.docs, ents |-> db.ents],
+           \* under pre-repair constants: is this one of the behaviours the repairs are there for?
+           lin   |-> (\E p \in Orders : RespectsRealTime(p) /\ ReplayFrom(p, 1, db0) = db)]))
 =============================================================================
